@@ -351,6 +351,14 @@ func TestC04(t *testing.T) {
 	hx.Rapid(r, t, "churn_writers", r.N(1000, 10000), func(rt *rapid.T) script { return genScript(rt, c04Profile) }, c04Prop(t, r, "churn_writers"))
 	hx.Rapid(r, t, "small_bodies_and_keepalives", r.N(300, 4000), genC04Small, c04SmallProp(t, r, "small_bodies_and_keepalives"))
 	hx.Rapid(r, t, "stalled_reader", r.N(300, 6000), genC04Stall, c04StallProp(t, r, "stalled_reader"))
+	// WriteUpdate from inside the update handler while the remote resets the connection under
+	// it (C03's session machinery with an echoing handler): the call returns, with an error or
+	// not, and the session ends
+	hx.Rapid(r, t, "handler_writes_under_reset", r.N(300, 4000), func(rt *rapid.T) c03Case {
+		c := genC03(rt)
+		c.Echo, c.End = true, "rst"
+		return c
+	}, c03Prop(t, r, "handler_writes_under_reset"))
 }
 
 // ---- small (untagged) bodies next to KEEPALIVEs, with slow writes
